@@ -12,7 +12,7 @@
 (*   dl    deadline period in s     (0 infinite)                 mutable   *)
 (*   tbf   time based filter separation in s (reader)            mutable   *)
 (*   nrep  number of offered data representations (writer)       mutable   *)
-(*   ud    user_data / topic_data / group_data                   mutable   *)
+(*   ud    user_data / topic_data / group_data (2: 70 000 octets) mutable  *)
 (*   pres  presentation (0 instance, 1 topic + coherent)  (group) immutable*)
 (*   part  partition    (0 none, 1 {"A"})                 (group) mutable  *)
 (* Kind is one of writer, reader, topic, publisher, subscriber,            *)
